@@ -145,3 +145,14 @@ PROPS["C17"] = {
             "(no cookies, only other flows' cookies, renamed, tampered, forged by another key, session token as tracker, foreign InResponseTo, invalid response, no RelayState, URL as RelayState, other flow's RelayState), "
             "then faithful completion in a random order with clock moves around the tracking lifetime and replays; each ACS reply (status, Location, session cookie and flags, cleared cookies) compared with the model",
 }
+
+PROPS["C19"] = {
+    "modules": ["SamlVerif.Props.C19"],
+    "trusted_base": ["modelled, not verified: bcrypt (symbolic: compare(H p, p') iff p = p'), JSON encoding of stored values, http.ServeMux routing, the MemoryStore (covered by C20)",
+                     "'exactly one HTTP reply' is by construction in the model and measured on the real server by a counting ResponseWriter (testing)"],
+    "assumptions": ["stored services have pairwise distinct entity IDs (with duplicates the registry a restart builds depends on Go map iteration order)",
+                    "the backing store does not answer not-found for a key it holds (hypothesis of the registry/restart theorems only; the authentication theorems hold for every fault pattern)"],
+    "rule": "random histories of 45 (thorough: 120) requests over the full alphabet (users with/without password, services overwritten under other entity IDs and without POST ACS, shortcuts to registered/unregistered SPs, "
+            "logins, SSO by redirect and by POST with credentials, IdP-initiated launches, session get/delete, clock advances past the session lifetime, restarts at random positions) with I/O-error and not-found faults "
+            "injected into individual store calls; every reply (status, kind, user/profile/entity/relay of an issued assertion, session cookie) compared with the model's",
+}
